@@ -120,10 +120,7 @@ class MPSBackendImpl:
             "Consider using the emu_sv backend."
         )
 
-        self.omega = pulser_data.omega
-        self.delta = pulser_data.delta
-        self.phi = pulser_data.phi
-        self.timestep_count: int = self.omega.shape[0]
+        self.timestep_count: int = pulser_data.omega.shape[0]
         self.has_lindblad_noise = len(pulser_data.lindblad_ops) > 0
         self.eigenstates = pulser_data.eigenstates
         self.dim = pulser_data.dim
@@ -136,6 +133,11 @@ class MPSBackendImpl:
             if self.config.optimize_qubit_ordering
             else optimat.eye_permutation(self.qubit_count)
         )
+        # The Hamiltonian is built in MPS site order (see _get_interaction_matrix),
+        # so the per-atom drives have to follow the same qubit permutation.
+        self.omega = pulser_data.omega[:, self.qubit_permutation]
+        self.delta = pulser_data.delta[:, self.qubit_permutation]
+        self.phi = pulser_data.phi[:, self.qubit_permutation]
 
         self.hamiltonian_type = pulser_data.hamiltonian_type
         self.time = time.time()
